@@ -50,8 +50,8 @@ cfg("rs_mcC.cfg", "mc", Stacks="StacksCore", Outcomes="Out4", AllowStop="TRUE", 
 cfg("rs_expT1.cfg", "exp", Stacks="StacksTags", Outcomes="Out1", TagOps="TagOps3", MaxTagOps=2, MaxCalls=10)
 cfg("rs_expT2.cfg", "exp", Stacks="StacksTags", Outcomes="Out1", TagOps="TagOps2", MaxTagOps=2, MaxCalls=9, AllowSkipNoStart="TRUE")
 cfg("rs_expT3.cfg", "exp", Stacks="StacksTags", Outcomes="Out1", TagOps="TagOps2", MaxTagOps=2, MaxTests=1, MaxRuns=2, MaxCalls=10)
-cfg("rs_expT4.cfg", "exp", Stacks="StacksTags", Outcomes="Out1", TagOps="TagOps3", MaxTagOps=3, MaxTests=2, MaxRuns=1, MaxCalls=9, AllowSkipNoStart="TRUE")
-cfg("rs_expT5.cfg", "exp", Stacks="StacksTags", Outcomes="Out1", TagOps="TagOps2", MaxTagOps=3, MaxTests=2, MaxRuns=2, MaxCalls=11)
+cfg("rs_expT4.cfg", "exp", Stacks="StacksTags", Outcomes="Out1", TagOps="TagOps4", MaxTagOps=2, MaxTests=2, MaxRuns=1, MaxCalls=10, AllowSkipNoStart="TRUE")
+cfg("rs_expT5.cfg", "exp", Stacks="StacksTags", Outcomes="Out1", TagOps="TagOps2", MaxTagOps=2, MaxTests=2, MaxRuns=2, MaxCalls=11)
 cfg("rs_mcT.cfg", "mc", Stacks="StacksCore", Outcomes="Out1", TagOps="TagOps4", MaxTagOps=3, MaxCalls=10, AllowSkipNoStart="TRUE")
 # --- deep random behaviours over the full alphabet ---------------------------------------------------------
 cfg("rs_sim.cfg", "sim", Outcomes="Out13", TagOps="TagOpsAll", MaxCalls=24, MaxTests=4, MaxRuns=2, MaxTagOps=5, MaxTimes=4,
